@@ -20,7 +20,8 @@ d0 == 48
 Elems == << Str(<<a>>),
             Seq2(Str(<<a>>), Str(<<b>>)),               \* fails after consuming "a"
             Ch2(Str(<<a>>), Str(<<a, b>>)),
-            Ref("A") >>
+            Ref("A"),
+            Opt(Str(<<a>>)) >>                          \* can match nothing: only meaningful under an upper bound
 Seps  == << Str(<<comma>>),
             Seq2(Str(<<comma>>), Str(<<semi>>)),        \* compound: "," consumed, ";" missing
             Ch2(Str(<<comma>>), Str(<<semi>>)) >>
@@ -128,5 +129,6 @@ LawSepShape ==
     \A k \in 1..Len(Texts) :
         LET r == EvalEntry(G, "start", Texts[k], 0) IN
         r.t = "ok" => /\ (~opts[3] => r.v[2] # <<>>)
-                      /\ ((opts[1] /\ ~opts[2]) => (r.e = 0 \/ Texts[k][r.e] \notin {comma, semi}))
+                      /\ ((opts[1] /\ ~opts[2] /\ el # 5) =>      \* (an element that may match nothing can follow the last separator)
+                             (r.e = 0 \/ Texts[k][r.e] \notin {comma, semi}))
 =============================================================================
